@@ -109,6 +109,8 @@ def apply_op(obj, op, args):
         # what it *contains* is compared instead
         return ("b64-content", digest.deep(pg.from_b64(obj.to_b64()))), None
     if op == "to_ge_polyhedron":
+        if len(args) > 1 and args[1]:
+            return obj.to_ge_polyhedron(bool(args[0]), reduced=True), None
         return obj.to_ge_polyhedron(bool(args[0])), None
     if op == "solve":
         return [(dict(s), int(ov) if ov is not None else None, sc) for s, ov, sc in obj.solve([dict(o) for o in args[0]], solver=exact_solver())], None
